@@ -23,7 +23,10 @@ Oracles on the code alone (no model):
 """
 from __future__ import annotations
 
+import contextlib
 import re
+import signal
+import time
 from typing import Any, Dict, List, Optional, Tuple
 
 import vlib
@@ -210,7 +213,11 @@ def gen_history(rng, nops: int, p_reserved: float = 0.12) -> List[list]:
             if d[:len(s)] == s:
                 continue
             wm = rng.random() < 0.4
-            op = ["copy", cwds, _spell(rng, cwd, s), _spell(rng, cwd, d), wm]
+            if cwd and d[:len(cwd)] != cwd:
+                # h5py/HDF5 checks an absolute copy destination relative to the calling group
+                # (plain-tree quirk, not modelled): absolute destinations only from the root
+                cwd, cwds = [], "/"
+            op = ["copy", cwds, _spell(rng, cwd, s), "/".join(d[len(cwd):]) if cwd else _spell(rng, cwd, d), wm]
             mir.cp(s, d, with_meta=not wm)
         elif r < 0.70:
             # not into the root group: the wrapper builds "//name", which IH5 does not resolve
@@ -223,6 +230,7 @@ def gen_history(rng, nops: int, p_reserved: float = 0.12) -> List[list]:
             if d[:len(s)] == s:
                 continue
             wm = rng.random() < 0.4
+            cwd, cwds = [], "/"      # the wrapper passes an absolute destination (see above)
             op = ["copyinto", cwds, _spell(rng, cwd, s), absname(dg), name, wm]
             mir.cp(s, d, with_meta=not wm)
         elif r < 0.76:
@@ -372,7 +380,7 @@ def observe_listings(m, view: Dict[str, list]) -> Dict[str, Any]:
     """Everything the wrapper lists, at every user group."""
     out = {}
     for name, ent in view.items():
-        if ent[0] != "G":
+        if ent[0] != "G" or reserved(name):
             continue
         g = m[name]
         o: Dict[str, Any] = {}
@@ -391,6 +399,7 @@ def observe_listings(m, view: Dict[str, list]) -> Dict[str, Any]:
             o["reversed"] = sorted(reversed(g))
         except Exception:  # noqa: BLE001  (IH5 groups are not reversible)
             o["reversed"] = None
+        vis = [n for n in vis if not reserved(n)]     # leaks are reported from o["visit"]
         o["in"] = sorted(n for n in vis if n in g)
         sub = [n for n in vis if view.get("/" + (name.strip("/") + "/" + n).strip("/"), ["D"])[0] == "G"]
         absent = [n + "/zz" for n in sub[:3]] + ["zz", "/zz"]
@@ -424,10 +433,33 @@ def open_container(drv: str, d):
 
 # ---- protocol enumeration
 
+class ProbeTimeout(Exception):
+    pass
+
+
+@contextlib.contextmanager
+def inner_limit(seconds: int):
+    """Time limit for one probe call that can be nested inside vlib.time_limit."""
+    def handler(signum, frame):
+        raise ProbeTimeout(f"call did not return within {seconds}s")
+    old = signal.signal(signal.SIGALRM, handler)
+    remaining = signal.alarm(seconds)
+    t0 = time.time()
+    try:
+        yield
+    finally:
+        signal.alarm(0)
+        signal.signal(signal.SIGALRM, old)
+        if remaining:
+            signal.alarm(max(1, remaining - int(time.time() - t0)))
+
+
 OP_METHOD = {"mkgrp": "create_group", "reqgrp": "require_group", "mkds": "create_dataset",
              "reqds": "require_dataset", "set": "__setitem__", "del": "__delitem__", "copyinto": "copy",
              "get": "__getitem__", "attach": "__getitem__", "detach": "__getitem__", "aset": "__getitem__",
              "adel": "__getitem__"}
+
+PROBE_CALL_LIMIT = 30
 
 LIFECYCLE = {
     # reviewed: object life cycle / attribute protocol / pickling -- take no node path
@@ -604,7 +636,8 @@ def probe_protocol(env, only: Optional[str] = None) -> Tuple[List[dict], Dict[st
                 grpnode = env["m"]["/"]      # never inside the source (IH5 would not terminate)
             except Exception:  # noqa: BLE001
                 pass
-            for R in (forms if reviewed else forms[:1] + forms[5:6] + forms[-1:]):
+            for R in ((forms if label == "container" else forms[:3] + forms[5:6] + forms[-2:]) if reviewed
+                      else forms[:1] + forms[5:6] + forms[-1:]):
                 shapes: List[Tuple[str, tuple, dict]] = [("(R)", (R,), {})]
                 if name in ("__setitem__", "create_dataset") or not reviewed:
                     shapes.append(("(R,value)", (R, 5), {}))
@@ -614,6 +647,17 @@ def probe_protocol(env, only: Optional[str] = None) -> Tuple[List[dict], Dict[st
                     shapes.append(("(R,shape,dtype)", (R,), {"shape": (), "dtype": "int64"}))
                 if name == "__setitem__" and node is not None:
                     shapes.append(("(R,node)", (R, node), {}))
+                if not reviewed and not name.startswith("__"):
+                    # unknown public method: put R into every positional parameter position
+                    import inspect
+                    try:
+                        ps = [q for q in inspect.signature(attr).parameters.values()
+                              if q.kind in (q.POSITIONAL_ONLY, q.POSITIONAL_OR_KEYWORD)]
+                    except (TypeError, ValueError):
+                        ps = []
+                    for i in range(min(len(ps), 4)):
+                        args = tuple(R if j == i else (u_exist or u_new) for j in range(len(ps)))
+                        shapes.append((f"(R at position {i} of {len(ps)})", args, {}))
                 if PATH_METHODS.get(name, 2) == 2:
                     shapes += [("(R,U_new)", (R, u_new), {}), ("(R,R)", (R, R + "_2"), {})]
                     if u_exist:
@@ -630,13 +674,21 @@ def probe_protocol(env, only: Optional[str] = None) -> Tuple[List[dict], Dict[st
                     except Exception:  # noqa: BLE001
                         break
                     res, exc = None, None
+                    what = dict(base, shape=sname, path=R)
                     try:
-                        res = f(*args, **kw)
+                        with inner_limit(PROBE_CALL_LIMIT):
+                            res = f(*args, **kw)
+                    except ProbeTimeout:
+                        # not refused: the call went on working with the reserved path
+                        viol.append(dict(what, kind="reserved-hang"))
+                        stats["probed_calls"] += 1
+                        env["rebuild"]()
+                        view, raw0 = env["view"], env["rawdump"]
+                        continue
                     except BaseException as e:  # noqa: BLE001
                         if isinstance(e, (KeyboardInterrupt, vlib.CaseTimeout)):
                             raise
                         exc = e
-                    what = dict(base, shape=sname, path=R)
                     echo = [a for a in list(args) + list(kw.values()) if isinstance(a, str)]
                     if not check_after(what, res, exc, must_raise=name in PATH_METHODS, echo=echo):
                         # state was rebuilt: refresh handles
@@ -721,6 +773,10 @@ def run_history(task) -> Dict[str, Any]:
                                                 "method": OP_METHOD.get(op[0], op[0]), "shape": "history-op", "step": i,
                                                 "op": op, "cls": cls, "changed": diff[:6]})
                     # oracle (b): listings vs raw dump
+                    for n in view:
+                        if reserved(n):
+                            out["viol"].append({"kind": "listing-leak", "method": "visititems", "step": i,
+                                                "at": "/", "leaked": [n]})
                     for gname, o in lst.items():
                         for meth, n in listing_names(o):
                             if reserved(n):
@@ -867,7 +923,7 @@ def _same_finding(v, target) -> bool:
     return sig_of(v) == sig_of(target)
 
 
-def w_shrink(job) -> List[list]:
+def w_shrink(job) -> list:
     """ddmin over the history for one finding (probes restricted to its method)."""
     task, target = job
     probe = "object" in target
@@ -880,10 +936,10 @@ def w_shrink(job) -> List[list]:
         return any(_same_finding(v, target) for v in r["viol"])
     try:
         if not ops or not fails(ops):
-            return ops
-        return vlib.ddmin(ops, fails, budget=24)
+            return [False, ops]
+        return [True, vlib.ddmin(ops, fails, budget=24)]
     except Exception:  # noqa: BLE001
-        return ops
+        return [False, ops]
 
 
 def run(ctx: vlib.Ctx):
@@ -901,18 +957,18 @@ def run(ctx: vlib.Ctx):
     global PKG
     PKG = vlib.pmap(load_pkg_names, [None, None], procs=2)[0]
 
-    nh = ctx.budget(40, 400)
+    nh = ctx.budget(40, 900)
     nops = ctx.budget(16, 24)
     hists = [gen_history(ctx.rng, ctx.rng.randint(6, nops)) for _ in range(nh)]
     # fixed pattern histories: all reserved forms in every position of every operation
     hists += pattern_histories()
-    nprobe = ctx.budget(5, 24)
+    nprobe = {"h5": ctx.budget(4, 32), "ih5": ctx.budget(2, 16)}
     tasks = []
     for hi, ops in enumerate(hists):
         for drv in ("h5", "ih5"):
             probe_at = []
-            if hi < nprobe:
-                probe_at = sorted({len(ops) - 1, ctx.rng.randrange(len(ops))})
+            if hi < nprobe[drv]:
+                probe_at = [len(ops) - 1] if ctx.quick else sorted({len(ops) - 1, ctx.rng.randrange(len(ops))})
             tasks.append({"driver": drv, "ops": ops, "probe_at": probe_at, "hist": hi,
                           "limit": 600 if probe_at else 240})
     import time
@@ -964,15 +1020,19 @@ def run(ctx: vlib.Ctx):
 
     flist = [(task, v) for _k, (task, v, _r) in sorted(findings.items())]
     smalls = vlib.pmap(w_shrink, flist)
-    for (task, v), small in zip(flist, smalls):
+    for (task, v), (reproduced, small) in zip(flist, smalls):
+        if v["kind"] == "reserved-hang" and not reproduced:
+            ctx.notes.append(f"probe call timed out once but not when re-run alone: {v}")
+            continue
         rep = {"kind": v["kind"], "driver": task["driver"], "ops": small, "finding": v, "probe": "object" in v}
         ctx.violation(describe(v, task["driver"]), rep, sig_obj=sig_of(v))
 
     cov["evaluations"] = evals + stats["probed_calls"]
     distinct = len({vlib.signature([t["driver"], t["ops"][:i + 1]]) for t in tasks for i in range(len(t["ops"]))})
     cov["distinct_nontrivial"] = distinct
-    cov["rule"] = ("histories of 6..N container operations (data ops in relative/absolute/dotted/double-slash spelling, "
-                   "attach/detach of two installed schemas, ~12% operations with a reserved path in a random argument "
+    cov["rule"] = ("histories of 6..N container operations (data ops on the container and on sub-groups with relative and "
+                   "absolute paths, attach/detach of two installed schemas, ~12% operations with a reserved path "
+                   "(relative, absolute, nested, dotted, double-slash, existing bookkeeping entries) in a random argument "
                    "position) + pattern histories placing 11 reserved path forms in every argument position of every "
                    "operation; both drivers; distinct = distinct (driver, history prefix); protocol probes: every dir() "
                    "name of wrappers/h5py/IH5/wrapt on container and sub-group x reserved forms x argument shapes")
@@ -1017,11 +1077,15 @@ def run(ctx: vlib.Ctx):
 
 def describe(v: dict, drv: str) -> str:
     d = {"h5": "h5py.File", "ih5": "IH5Record"}[drv]
+    shape = v.get("shape", "")
+    shape = " (operation of the history)" if shape == "history-op" else shape
     if v["kind"] == "reserved-effect":
-        return (f"[{d}] {v.get('method')}{v.get('shape', '')} with reserved path {v.get('path', v.get('op'))!r} changed the raw tree "
+        return (f"[{d}] {v.get('method')}{shape} with reserved path {v.get('path', v.get('op'))!r} changed the raw tree "
                 f"({v.get('changed')}; raised {v.get('raised', v.get('cls'))})")
+    if v["kind"] == "reserved-hang":
+        return f"[{d}] {v.get('method')}{shape} with reserved path {v.get('path')!r} was not refused: the call did not return within {PROBE_CALL_LIMIT}s"
     if v["kind"] == "reserved-accepted":
-        return f"[{d}] {v.get('method')}{v.get('shape', '')} accepted reserved path {v.get('path', v.get('op'))!r} without raising"
+        return f"[{d}] {v.get('method')}{shape} accepted reserved path {v.get('path', v.get('op'))!r} without raising"
     if v["kind"] in ("listing-leak", "reserved-leak"):
         return f"[{d}] {v.get('method')} at {v.get('at')} exposes reserved names {v.get('leaked')}"
     if v["kind"] == "listing-wrong":
